@@ -17,6 +17,19 @@ def find_x(term):
     return xs
 
 
+def quarter_is_int_field(e, f, depth=0):
+    """f is an integer function of float->int casts: no float arithmetic above the casts"""
+    if depth > 24 or not isinstance(f, tuple): return False
+    k = f[0]
+    if k == 'c': return f[1] != 'f64'
+    if k == 'cast': return f[1] == 'float_to_int' or (f[1] == 'int_to_int' and quarter_is_int_field(e, f[3], depth + 1))
+    if k == 'op': return f[2] != 'f64' and quarter_is_int_field(e, f[3], depth + 1) and quarter_is_int_field(e, f[4], depth + 1)
+    if k == 'un': return quarter_is_int_field(e, f[3], depth + 1)
+    if k == 'phi': return all(quarter_is_int_field(e, o, depth + 1) for o in e.phi_ops.get(f, ()) if o != f)
+    if k == 'fld' and f[1][0] == 'agg': return quarter_is_int_field(e, f[1][3][f[2]], depth + 1)
+    return False
+
+
 def reduction(ctx, crate, fn, clause, xmax=64.0):
     """offset in [-1,1] and quarter in [0,3] for |lon|*4/pi up to xmax (8 turns = 64)"""
     b = ctx.anchor(crate, fn, clause)
@@ -39,6 +52,8 @@ def reduction(ctx, crate, fn, clause, xmax=64.0):
         v = fl.ev(f)
         role = None
         if v is None:
+            # the integer field (the quarter) is decided exactly by quarter_table below
+            if quarter_is_int_field(e, f): continue
             ctx.undecided(clause, "%s:field%d" % (fn, idx), "cannot evaluate %s as a floor-linear form of %s" % (show(f), show(x)), at=b.span); continue
         lo, hi = fl.conc(v)
         if v.is_int:
@@ -51,6 +66,60 @@ def reduction(ctx, crate, fn, clause, xmax=64.0):
             if not ok: d += " — the subtracted integer is not the (unmasked) odd floor of x: for lon >= 2*pi the offset leaves [-1, 1] and the cell number is wrong / out of range"
             ctx.report(clause, fn + ":offset-in-pm1", ok, d, at=b.span, kind="N",
                        sample={"fn": fn, "offset_form": repr(v), "range": [lo, hi], "x": show(x)})
+
+
+def quarter_table(ctx, crate, cfg, fn="nested::Layer::xpm1_and_q", clause="longitude-reduction", kmax=64):
+    """D: the quarter returned for every value of floor(|lon|*4/pi) in 0..=kmax and either sign of
+    lon is the model's — floor(x/2) mod 4 counted from lon = 0, mirrored (3 - .) for lon < 0 — and
+    no case ends in a panic (in the dev profile an integer overflow is one).  A finite case split:
+    the float->u8 cast and the sign word are the only inputs of the integer result; each case is
+    folded to a constant by the interpreter."""
+    from sym import C
+    b = ctx.anchor(crate, fn, clause)
+    if b is None: return
+    e0 = Engine(crate); r0 = e0.run(fn); ctx.functions |= e0.visited_fns
+    if not r0.returns or r0.ret[0] != 'agg' or len(r0.ret[3]) != 2:
+        ctx.undecided(clause, "%s:quarter-table[%s]" % (fn, cfg), "unexpected return shape", at=b.span); return
+    casts = {t for f in r0.ret[3] for t in walk(f) if t[0] == 'cast' and t[1] == 'float_to_int' and t[2] == 'u8'}
+    for p, ops in e0.phi_ops.items():
+        for o in ops: casts |= {t for t in walk(o) if t[0] == 'cast' and t[1] == 'float_to_int' and t[2] == 'u8'}
+    for t, loc in e0.branches: casts |= {y for y in walk(t) if y[0] == 'cast' and y[1] == 'float_to_int' and y[2] == 'u8'}
+    def mentions_sign_word(t):
+        return any(y[0] == 'op' and y[1] == 'bitand' and C('u64', 1 << 63) in (y[3], y[4]) for y in walk(t)) or \
+            (t[0] == 'op' and t[1] in ('lt', 'ge', 'gt', 'le') and ('p', 'lon') in (t[3], t[4]) and (C('f64', 0) in (t[3], t[4]) or C('f64', 1 << 63) in (t[3], t[4])))
+    signs = [t for t, loc in e0.branches if loc[0] == fn and any(y == ('p', 'lon') for y in walk(t)) and mentions_sign_word(t)]
+    if len(casts) != 1 or len(signs) != 1:
+        ctx.undecided(clause, "%s:quarter-table[%s]" % (fn, cfg), "expected one float->u8 cast and one test of the sign of lon, found %d / %d" % (len(casts), len(signs)), at=b.span); return
+    cast = casts.pop(); sign = signs[0]
+    # the sign test: the masked sign word itself (switch on an integer), its comparison with 0, or lon < 0.0
+    SIGN = C('u64', 1 << 63); bits = ('call', 'core::f64::<impl f64>::to_bits', (('p', 'lon'),))
+    words = (('op', 'bitand', 'u64', bits, SIGN), ('op', 'bitand', 'u64', SIGN, bits))
+    zero_f = C('f64', 0)
+    sv = None
+    if sign in words: sv = {"+": C('u64', 0), "-": SIGN}
+    elif sign[0] == 'op' and sign[1] in ('eq', 'ne') and ((sign[3] in words and sign[4] == C('u64', 0)) or (sign[4] in words and sign[3] == C('u64', 0))):
+        sv = {"+": C('bool', 1 if sign[1] == 'eq' else 0), "-": C('bool', 0 if sign[1] == 'eq' else 1)}
+    elif sign[0] == 'op' and sign[1] in ('lt', 'ge') and sign[3] == ('p', 'lon') and sign[4] in (zero_f, C('f64', 1 << 63)):
+        sv = {"+": C('bool', 0 if sign[1] == 'lt' else 1), "-": C('bool', 1 if sign[1] == 'lt' else 0)}
+    elif sign[0] == 'op' and sign[1] in ('gt', 'le') and sign[4] == ('p', 'lon') and sign[3] in (zero_f, C('f64', 1 << 63)):
+        sv = {"+": C('bool', 0 if sign[1] == 'gt' else 1), "-": C('bool', 1 if sign[1] == 'gt' else 0)}
+    if sv is None:
+        ctx.undecided(clause, "%s:quarter-table[%s]" % (fn, cfg), "the test of the sign of lon is not recognised: %s" % show(sign)[:100], at=b.span); return
+    bad = []; n = 0
+    for sname, sval in sv.items():
+        for k in range(kmax + 1):
+            e = Engine(crate); e.subst = {cast: C('u8', k), sign: sval}
+            r = e.run(fn)
+            want = (k >> 1) & 3
+            if sname == "-": want = 3 - want
+            n += 1
+            if not r.returns: bad.append((sname, k, "panics")); continue
+            q = [f for f in r.ret[3] if f[0] == 'c' and f[1] in ('u8', 'u32', 'u64', 'usize', 'u16')]
+            if len(q) != 1: bad.append((sname, k, "not a constant: %s" % show(r.ret)[:60])); continue
+            if q[0][2] != want: bad.append((sname, k, "quarter %d, expected %d" % (q[0][2], want)))
+    ctx.report(clause, "%s:quarter-table[%s]" % (fn, cfg), not bad,
+               "for floor(|lon|*4/pi) = 0..=%d and both signs the quarter is floor(x/2) mod 4 (mirrored for lon < 0), %d cases, none panics" % (kmax, n) if not bad else
+               "%d of %d cases differ from the model: %s" % (len(bad), n, ["lon%s0, floor(x)=%d: %s" % b_ for b_ in bad[:4]]), at=b.span, sample={"cases": n, "profile": cfg})
 
 
 def base_cell_bound(ctx, crate, clause):
@@ -123,6 +192,8 @@ def run(ctx):
     crate = ctx.crate("rel")
     base_cell_bound(ctx, crate, "base-cell<=11")
     reduction(ctx, crate, "nested::Layer::xpm1_and_q", "longitude-reduction")
+    for cfg in ("rel", "dbg"):
+        quarter_table(ctx, ctx.crate(cfg), cfg)
     assembly(ctx, crate, "assembly")
     # the rounding clamp i, j == nside -> nside - 1 (a necessary condition of "below 12*4^depth":
     # h + l can round up to exactly 2.0 on the NE / NW border of a base cell) — shared with C02 P4
